@@ -97,4 +97,76 @@ Proof.
   - auto.
 Qed.
 
+(* the standard invariant threaded through a composition: environment, sizes, the caller's P *)
+Definition Jstd (ce : cenv) (rho : venv) (n0 nv hi : nat) (P : list sv -> nat -> Prop)
+  (vs : list sv) (n : nat) : Prop :=
+  envOK ce rho vs n0 nv /\ n0 <= n /\ hi <= length vs /\ P vs n.
+
+Lemma Jstd_chg : forall ce rho n0 nv hi (P : list sv -> nat -> Prop) (O : nat -> Prop) a b m m',
+  (forall x y k k', P x k -> chg O x y -> k <= k' -> P y k') ->
+  (forall i, O i -> nv <= i) ->
+  Jstd ce rho n0 nv hi P a m -> chg O a b -> m <= m' -> Jstd ce rho n0 nv hi P b m'.
+Proof.
+  intros ce rho n0 nv hi P O a b m m' HP HO (E & Hn & Hl & Hp) C Hm.
+  split; [eapply envOK_chg; eauto|]. split; [lia|]. split; [destruct C; lia|]. eapply HP; eauto.
+Qed.
+Lemma Jstd_keep : forall c ce rho n0 nv hi (P : list sv -> nat -> Prop) a b m m',
+  (forall x y k k', P x k -> keepS c x y -> k <= k' -> P y k') ->
+  (forall i, kept ce i -> g_keep c i) ->
+  Jstd ce rho n0 nv hi P a m -> keepS c a b -> m <= m' -> Jstd ce rho n0 nv hi P b m'.
+Proof.
+  intros c ce rho n0 nv hi P a b m m' HP HK (E & Hn & Hl & Hp) C Hm.
+  split; [eapply envOK_keep; eauto|]. split; [lia|]. split; [destruct C; lia|]. eapply HP; eauto.
+Qed.
+
+Lemma Tend_weaken : forall c fin (P P' : list sv -> nat -> Prop) s,
+  (forall a m, P a m -> P' a m) -> Tend c fin P s -> Tend c fin P' s.
+Proof.
+  intros c fin P P' s H (e & vs & n & St & Ch & Le & HE & HP). exists e, vs, n. auto 6.
+Qed.
+
+Lemma impl_pipe : forall a b, Impl a -> Impl b -> Impl (QPipe a b).
+Proof.
+  intros a b IHa IHb. impl_intro. simpl in Hc. dcomp. inversion Hc; subst cq nv'. clear Hc.
+  rename l into ca, n1 into n1, l0 into cb, n2 into n2.
+  destruct (code_at_app _ _ _ _ Hat) as [Hata Hatb].
+  pose proof (comp_mono _ _ _ _ _ _ Ec) as M1. pose proof (comp_mono _ _ _ _ _ _ Ec0) as M2.
+  assert (Hkl : forall i, kept ce i -> i < nv) by (intros; eapply kept_lt; eauto).
+  subst c. rewrite app_length, Nat.add_assoc.
+  set (c := ctx_of (pc + length ca + length cb) st fk nv n2 K ce n0).
+  set (c1 := ctx_of (pc + length ca) st fk nv n1 (fun i => nv <= i < n1 \/ kept ce i) ce n0).
+  set (J := fun (_ : unit) => Jstd ce rho n0 nv n2 P).
+  set (fb := fun (_ : unit) w => (fst (den b rho w), snd (den b rho w), tt)).
+  assert (HA : G c1 (fst (den a rho v)) (Tend c1 (snd (den a rho v)) (fun _ _ => True)) (N pc (SV v :: st) fk vs n)).
+  { apply (IHa ce pc nv ca n1 Ec Hata rho v st fk vs n n0 _ (fun _ _ => True)); auto; try lia.
+    split; auto. }
+  cbn [Den.den]. unfold bind.
+  pose proof (foldgen_bind (den b rho) (fst (den a rho v))) as Ef. fold fb in Ef.
+  destruct (bind_list (fst (den a rho v)) (den b rho)) as [os x] eqn:Eb. cbn [fst snd] in Ef.
+  assert (HG : G c os (Tend c (match x with Some e => Some e | None => snd (den a rho v) end) (J tt))
+                 (N pc (SV v :: st) fk vs n)).
+  { refine (G_fold nt code rpc c1 c unit J fb (fun i => n1 <= i < n2) ce eq_refl eq_refl eq_refl
+              _ _ _ _ eq_refl _ _ _ _ tt _ _ _ _ _ HA _ Ef).
+    - simpl; intros; lia.
+    - simpl; intros; lia.
+    - simpl. intros i [Hi|Hi]; split; try lia; [apply HK1; lia|apply HK2; auto|apply Hkl in Hi; lia].
+    - simpl. intros i Hi. apply Hkl in Hi. lia.
+    - intros g p q m m' Hj C Hm. eapply Jstd_chg; eauto.
+      + intros. eapply S1; eauto. eapply chg_mono; [|eauto]. simpl; intros; lia.
+      + simpl; intros; lia.
+    - intros g p m (E & _). eapply envOK_lblOK; eauto.
+    - intros w g fk' vs' n' os' x' g' (E & Hn' & Hl' & Hp') Efb. unfold fb in Efb. inversion Efb; subst os' x' g'.
+      apply (IHb ce (pc + length ca) n1 cb n2 Ec0 Hatb rho w st (fk' ++ fk) vs' n' n0 K (J tt)); auto.
+      + eapply envOK_nv; eauto.
+      + intros; apply HK1; lia.
+      + split.
+        * intros p q m m' Hj C Hm. eapply Jstd_chg; eauto.
+          -- intros. eapply S1; eauto. eapply chg_mono; [|eauto]. simpl; intros; lia.
+          -- simpl; intros; lia.
+        * intros p q m m' Hj C Hm. eapply Jstd_keep; eauto.
+      + split; auto.
+    - simpl. split; auto. }
+  destruct x as [e|]; (eapply G_impl; [|exact HG]); intros s0; apply Tend_weaken; intros p m (_ & _ & _ & Hp); exact Hp.
+Qed.
+
 End C.
